@@ -85,7 +85,7 @@ theorem pos_bridge_field (i : Option TypeP.Ident) (t : TypeP.Ty) (ht : WFBridgeT
 
 /-! ## non-vacuity -/
 
-deriving instance DecidableEq for Expr.PExpr, Expr.PExprs
+deriving instance DecidableEq for Expr.PExpr, Expr.PExprs, Expr.PWhens, Expr.POExpr
 deriving instance DecidableEq for Expr.Res
 deriving instance DecidableEq for TypeP.Ty, TypeP.Fields
 deriving instance DecidableEq for TypeP.Res
@@ -123,6 +123,19 @@ example : docPosEnd Bridge.posTables (toNodeP exTree) = some (1, 38) := by decid
 example : goPosEnd Bridge.posTables
     (toNodeP (.index 20 (.path [⟨1, 2, B "a"⟩, ⟨3, 4, B "b"⟩]) (some ⟨.offset, B "OFFSET", 7, 18⟩) (.int 16 17 none (B "1")))) =
     some (1, 21) := by decide +kernel
+
+/-- Task E, stage 1: the tree of `CASE a WHEN 1 THEN b ELSE IF(c, 2, 3) END` (`CaseExpr`, `CaseWhen`, `CaseElse`, `IfExpr`) -/
+def exCase : Expr.PExpr :=
+  .caseE 0 38 (.some 0 (.ident ⟨5, 6, B "a"⟩)) 7 (.int 12 13 none (B "1")) (.ident ⟨19, 20, B "b"⟩) .nil
+    (.some 21 (.ifE 26 36 (.ident ⟨29, 30, B "c"⟩) (.int 32 33 none (B "2")) (.int 35 36 none (B "3"))))
+
+example : exprOf "CASE a WHEN 1 THEN b ELSE IF(c, 2, 3) END" = .ok exCase := by decide +kernel
+example : WFBridge exCase := by decide
+example : sqlOf Gen.sqlTables Expr.asciiPrint (toNodeP exCase) = some (B "CASE a WHEN 1 THEN b ELSE IF(c, 2, 3) END") := by
+  decide +kernel
+example : Expr.sqlE (Expr.erase exCase) = B "CASE a WHEN 1 THEN b ELSE IF(c, 2, 3) END" := by decide +kernel
+example : goPosEnd Bridge.posTables (toNodeP exCase) = some (0, 41) := by decide +kernel
+example : docPosEnd Bridge.posTables (toNodeP exCase) = some (0, 41) := by decide +kernel
 
 /-- the tree of `ARRAY<STRUCT<a INT64, b ARRAY<STRING>>>` -/
 def exType : TypeP.Ty :=
